@@ -8,6 +8,7 @@ from hypothesis import strategies as st
 
 from pbt import fcsgen
 from pbt.runner import workdir
+from pbt.samples import call, raised
 
 ID = 'C14'
 LEVEL = 'exploration'
@@ -80,6 +81,12 @@ def ref_tokenize(s, D, supplemental):
     return ('ok', dict(zip(tokens[0::2], tokens[1::2])))
 
 
+def _uw(w):
+    # the reader's own warnings are UserWarnings; a ResourceWarning raised by the garbage collector while the block
+    # is active (an earlier case's file object being finalised) is not the reader speaking
+    return [x for x in w if issubclass(x.category, UserWarning)]
+
+
 def real_parse(raw, begin, end, delim, supplemental):
     import FlowCal.io
     with warnings.catch_warnings(record=True) as w:
@@ -91,7 +98,7 @@ def real_parse(raw, begin, end, delim, supplemental):
             return ('err', str(e))
         except Exception as e:                 # any other exception type is not a clean refusal
             return ('exc', '%s: %s' % (type(e).__name__, e))
-    return ('warn' if w else 'ok', r[0], r[1])
+    return ('warn' if _uw(w) else 'ok', r[0], r[1])
 
 
 def compare(s, D, supplemental, X):
@@ -252,7 +259,18 @@ def _arm_file(draw):
     stext = draw(st.none() | _pairs(delim, 4, prefix='KS')) if version != 'FCS2.0' else None
     analysis = draw(st.none() | _pairs(delim, 4, prefix='KA'))
     names_tok = draw(st.lists(_token(delim), min_size=2, max_size=2, unique=True))
-    return dict(arm='file', delim=delim, version=version, extra=extra, stext=stext, analysis=analysis,
+    stext_raw = None
+    if version != 'FCS2.0' and draw(st.sampled_from([True, False, False, False])):
+        # a supplemental segment written verbatim: short words and runs of the delimiter, well-formed or not
+        others = [c for c in 'kv1$ ' if c != delim]
+        parts = [delim * draw(st.integers(0, 2))]
+        for _ in range(draw(st.integers(1, 5))):
+            parts.append(draw(st.text(alphabet=others, min_size=1, max_size=3)))
+            parts.append(delim * draw(st.sampled_from([1, 1, 1, 2, 2, 3])))
+        parts.append(draw(st.text(alphabet=others, max_size=2)))
+        stext_raw = ''.join(parts)
+        stext = None
+    return dict(arm='file', stext_raw=stext_raw, delim=delim, version=version, extra=extra, stext=stext, analysis=analysis,
                 analysis_in=draw(st.sampled_from(['header', 'text'])) if version != 'FCS2.0' else 'header',
                 stext_leading=draw(st.booleans()), analysis_leading=draw(st.booleans()),
                 blank_analysis=draw(st.booleans()),
@@ -314,6 +332,33 @@ def check(case, obs):
                     blank_analysis=case['blank_analysis'], pad=case['pad'], pad_seed=case['pad_seed'],
                     trail=case['trail'])
         path = os.path.join(workdir(), 'c14.fcs')
+        if case.get('stext_raw') is not None:
+            # a supplemental segment given verbatim: the file is read iff the reference reads the segment, and then
+            # its pairs are merged; an ill-formed segment makes the load fail (never a silent load without it)
+            spec['stext_raw'] = case['stext_raw']
+            _, info = fcsgen.write(path, spec)
+            R = ref_tokenize(case['stext_raw'], D, True)
+            obs.label('stext_raw:' + R[0])
+            obs.nontrivial = True
+            with warnings.catch_warnings(record=True) as w:
+                warnings.simplefilter('always')
+                f = call(FlowCal.io.FCSFile, path)
+                d = call(FlowCal.io.FCSData, path)
+            main = dict(info['pairs'])
+            if R[0] == 'err':
+                obs.claim('reject', raised(f) and raised(d),
+                          lambda: 'file with ill-formed supplemental TEXT %r (%s) was loaded' % (case['stext_raw'], R[1]))
+            elif R[0] == 'ok':
+                exp = dict(main)
+                exp.update(R[1])
+                obs.claim('merged', not raised(f) and not raised(d) and f.text == exp and d.text == exp,
+                          lambda: 'supplemental TEXT %r: text %r, expected main keywords + %r' % (
+                              case['stext_raw'], f if raised(f) else {k: v for k, v in f.text.items() if main.get(k) != v}, R[1]))
+            else:
+                # tolerated ending: refused, or read with a warning; never read silently
+                obs.claim('tolerated', raised(f) or bool(_uw(w)),
+                          lambda: 'supplemental TEXT %r ends with an even delimiter run but was read silently' % (case['stext_raw'],))
+            return
         _, info = fcsgen.write(path, spec)
         exp_text = dict(info['pairs'])
         exp_text.update(dict(case['stext'] or []))
@@ -336,7 +381,7 @@ def check(case, obs):
                       {k: v for k, v in f.text.items() if k not in exp_text}))
         obs.claim('analysis', f.analysis == exp_an, lambda: 'FCSFile.analysis %r != %r' % (f.analysis, exp_an))
         obs.claim('merged', d.text == exp_text and d.analysis == exp_an, 'FCSData.text/analysis differ')
-        obs.claim('no_warning', not w, lambda: 'warning on well-formed file: %s' % [str(x.message) for x in w])
+        obs.claim('no_warning', not _uw(w), lambda: 'warning on well-formed file: %s' % [str(x.message) for x in _uw(w)])
         obs.claim('names', tuple(d.channels) == tuple(case['names']), lambda: 'channels %r' % (d.channels,))
     else:
         raise ValueError('unknown arm %r' % arm)
